@@ -27,7 +27,9 @@ RULE = (
     "proper prefixes, duplicates = overwrites), Meta constructor arguments (any subset of the 9 serialised "
     "fields with falsy values: size 0, nfiles 0, isexec/isdir False, empty strings, 2^63-1; sometimes "
     "unserialised fields inode/mtime/nlink), HashInfo (names md5, md5-dos2unix, sha256, etag, checksum, "
-    "None/''; values hex, hex.dir, etag-like, ''/None; obj_name), loaded in {None, True, False}; plus "
+    "None/''; values hex, hex.dir, etag-like, ''/None; obj_name), loaded in {None, True, False}, the provenance of the entry object's own key attribute (the mapping key, "
+    "None, another existing key, a key stored nowhere; the same entry object stored under a second key; "
+    "index[new] = index.pop(old)) - the index must come back under the MAPPING keys; plus "
     "deletions, rewrites of a key with an entry that differs from the stored one ONLY in Meta.remote (the "
     "one field that is serialised but declared eq=False, so both entries compare equal), 'fetch the entry, "
     "mutate one serialised field in place, store it again under its key' steps, the forms to run and, for "
@@ -123,16 +125,29 @@ def build_hi(hs):
 def build_entry(spec):
     from dvc_data.index import DataIndexEntry
 
-    return DataIndexEntry(key=tuple(spec["key"]), meta=build_meta(spec["meta"]),
+    # provenance of the entry's own key attribute: absent = the mapping key, null = None, a list = that key
+    if "ekey" in spec:
+        own = None if spec["ekey"] is None else tuple(spec["ekey"])
+    else:
+        own = tuple(spec["key"])
+    return DataIndexEntry(key=own, meta=build_meta(spec["meta"]),
                           hash_info=build_hi(spec["hash"]), loaded=spec["loaded"])
+
+
+def loose_key(spec):
+    """The entry object's own key attribute may differ from the key it is stored under (drawn provenance,
+    alias, rename). Readers set it from the stored key; an open handle returns the object as it is."""
+    return "ekey" in spec or spec.get("_loosekey", False)
 
 
 def expected_proj(spec):
     return (typed(ref_meta(spec["meta"])), ref_hi(spec["hash"]), spec["loaded"])
 
 
-def compare_entry(form, key, spec, entry, viols):
-    """Compare one entry that came back against its spec; append violations."""
+def compare_entry(form, key, spec, entry, viols, open_handle=False):
+    """Compare one entry that came back against its spec; append violations. Entries that come back from a
+    reader (read_json, read_db, the SQLite loader) carry the key they are stored under; objects handed back
+    by an open handle keep their own key attribute, which is only checked when it was the mapping key."""
     em, eh, el = expected_proj(spec)
     if entry is None:
         viols.append(Viol(f"{form}:entry-none", f"{form}: key {key!r} came back without an entry"))
@@ -148,18 +163,18 @@ def compare_entry(form, key, spec, entry, viols):
     ol = entry.loaded
     if not (ol is el or (isinstance(ol, bool) and isinstance(el, bool) and ol == el)):
         viols.append(Viol(f"{form}:loaded", f"{form}: loaded flag of {key!r} changed: wrote {el!r}, read {ol!r}"))
-    if entry.key != key:
+    if entry.key != key and not (open_handle and loose_key(spec)):
         viols.append(Viol(f"{form}:entry-key", f"{form}: entry stored under {key!r} carries key {entry.key!r}"))
 
 
-def compare_index(form, model, got, viols):
+def compare_index(form, model, got, viols, open_handle=False):
     """model: {key: spec}; got: {key: entry}"""
     mk, gk = set(model), set(got)
     if mk != gk:
         viols.append(Viol(f"{form}:keys",
                           f"{form}: key set changed: missing {sorted(mk - gk)}, extra {sorted(gk - mk)}"))
     for key in sorted(mk & gk):
-        compare_entry(form, key, model[key], got[key], viols)
+        compare_entry(form, key, model[key], got[key], viols, open_handle)
 
 
 # ------------------------------------------------------------------------------------------
@@ -200,8 +215,13 @@ def mem_index(model, order):
     from dvc_data.index import DataIndex
 
     index = DataIndex()
+    objs = {}
     for key in order:
-        index.add(build_entry(model[key]))
+        spec = model[key]
+        tok = spec.get("_obj", key)
+        if tok not in objs:
+            objs[tok] = build_entry(spec)
+        index[key] = objs[tok]   # not index.add(): that files the entry under its own key attribute
     return index
 
 
@@ -287,11 +307,32 @@ def apply_ops(index, ops, model, state=None):
                 del model[full]
             continue
         key = tuple(op["key"])
+        shared = state.setdefault("shared", set())
+        if kind in ("alias", "rename"):
+            src = tuple(op["src"])
+            if src not in model or src == key:
+                continue
+            if kind == "alias":
+                # the same entry object stored under a second key; its own key attribute is not rewritten
+                entry = index[src]
+                index[key] = entry
+                model[key] = dict(model[src], key=list(key), _loosekey=True)
+                shared.update((src, key))
+            else:
+                # rename that reuses the entry object
+                index[key] = index.pop(src)
+                model[key] = dict(model.pop(src), key=list(key), _loosekey=True)
+                if src in shared:
+                    shared.discard(src)
+                    shared.add(key)
+            continue
         if kind == "set":
             index[key] = build_entry(op)
             model[key] = op
+            shared.discard(key)
         elif kind == "mutate":
-            if key in model:
+            if key in model and key not in shared:   # (mutating an object stored under two keys is aliasing,
+                #                                       not serialisation: the other key's row is not rewritten)
                 # fetch the entry, change one serialised field in place, store it again under its key
                 entry = index[key]
                 mutate_entry(entry, op["field"], op["value"])
@@ -300,6 +341,7 @@ def apply_ops(index, ops, model, state=None):
         elif key in model:
             del index[key]
             del model[key]
+            shared.discard(key)
 
 
 def read_open_index(index):
@@ -389,7 +431,7 @@ def lazy_phase(index, lazy, d, classes):
     return pre
 
 
-def compare_snapshots(form, pre, post, viols):
+def compare_snapshots(form, pre, post, viols, loose=()):
     if set(pre) != set(post):
         viols.append(Viol(f"{form}:keys", f"{form}: key set changed across close/reopen: missing "
                                           f"{sorted(set(pre) - set(post))}, extra {sorted(set(post) - set(pre))}"))
@@ -403,7 +445,7 @@ def compare_snapshots(form, pre, post, viols):
         if l0 is not l1:
             viols.append(Viol(f"{form}:loaded", f"{form}: loaded flag of {key!r}: open handle {l0!r}, "
                                                 f"reopened {l1!r}"))
-        if k0 != k1:
+        if k0 != k1 and key not in loose:
             viols.append(Viol(f"{form}:entry-key", f"{form}: entry key of {key!r}: open handle {k0!r}, "
                                                    f"reopened {k1!r}"))
 
@@ -446,9 +488,10 @@ def arm_sqlite(ops, split, d, viols, lazy=None, classes=None, final_commit="pare
             index.close()
         under = lambda k: any(k[:len(lk)] == lk for lk in lazy_keys)  # noqa: E731
         if by_lookup is not None:
-            compare_index(f"sqlite-open{n}", model, {k: v for k, v in got.items() if not under(k)}, viols)
+            compare_index(f"sqlite-open{n}", model, {k: v for k, v in got.items() if not under(k)}, viols,
+                          open_handle=True)
             compare_index(f"sqlite-open{n}-lookup", model,
-                          {k: v for k, v in by_lookup.items() if not under(k)}, viols)
+                          {k: v for k, v in by_lookup.items() if not under(k)}, viols, open_handle=True)
         index = DataIndex.open(path)
         try:
             post = snapshot(index)
@@ -456,7 +499,8 @@ def arm_sqlite(ops, split, d, viols, lazy=None, classes=None, final_commit="pare
             n_items = len(index)
         finally:
             index.close()
-        compare_snapshots("sqlite-lazy-reopen" if lazy_keys else "sqlite-handle-vs-reopen", pre, post, viols)
+        compare_snapshots("sqlite-lazy-reopen" if lazy_keys else "sqlite-handle-vs-reopen", pre, post, viols,
+                          loose={k for k, sp in model.items() if loose_key(sp)})
         compare_index("sqlite-reopen", model, {k: v for k, v in got.items() if not under(k)}, viols)
         compare_index("sqlite-reopen-lookup", model, {k: v for k, v in by_lookup.items() if not under(k)}, viols)
         if n_items != len(pre):
@@ -559,7 +603,12 @@ def _check_parts(parts):
 
 def validate(case):
     for op in case["ops"]:
-        assert op["op"] in ("set", "del", "mutate", *VIEW_OPS)
+        assert op["op"] in ("set", "del", "mutate", "alias", "rename", *VIEW_OPS)
+        assert not any(k.startswith("_") for k in op), "private model fields must not leak into a case"
+        if op["op"] in ("alias", "rename"):
+            _check_parts(op["src"])
+        if op.get("ekey"):
+            _check_parts(op["ekey"])
         if op["op"] == "view":
             assert op["prefix"], "a view needs a non-empty prefix"
             _check_parts(op["prefix"])
@@ -612,7 +661,8 @@ def final_model(ops, drop_root):
                 if kind == "vset":
                     if full not in model:
                         order.append(full)
-                    model[full] = dict(op, op="set", key=list(full))
+                    state["n"] = state.get("n", 0) + 1
+                    model[full] = dict(op, op="set", key=list(full), _obj=state["n"])
                     state["vkeys"].add(full)
                 elif full in model and full in state["vkeys"]:
                     del model[full]
@@ -621,16 +671,36 @@ def final_model(ops, drop_root):
         key = tuple(op["key"])
         if drop_root and not key:
             continue
+        shared = state.setdefault("shared", set())
+        if kind in ("alias", "rename"):
+            src = tuple(op["src"])
+            if src not in model or src == key:
+                continue
+            if key not in model:
+                order.append(key)
+            if kind == "alias":
+                model[key] = dict(model[src], key=list(key), _loosekey=True)
+                shared.update((src, key))
+            else:
+                model[key] = dict(model.pop(src), key=list(key), _loosekey=True)
+                order.remove(src)
+                if src in shared:
+                    shared.discard(src)
+                    shared.add(key)
+            continue
         if kind == "set":
             if key not in model:
                 order.append(key)
-            model[key] = op
+            state["n"] = state.get("n", 0) + 1
+            model[key] = dict(op, _obj=state["n"])
+            shared.discard(key)
         elif kind == "mutate":
-            if key in model:
+            if key in model and key not in shared:
                 model[key] = mutated_spec(model[key], op["field"], op["value"])
         elif key in model:
             del model[key]
             order.remove(key)
+            shared.discard(key)
     return model, order
 
 
@@ -714,6 +784,18 @@ def run_case(case, ctx):
     for n, op in enumerate(ops):
         if op["op"] in VIEW_OPS:
             continue
+        if op["op"] in ("alias", "rename"):
+            if tuple(op["src"]) in cur and op["src"] != op["key"]:
+                classes.append("entry-key:" + op["op"])
+                cur[tuple(op["key"])] = dict(cur[tuple(op["src"])], key=op["key"])
+                written_at[tuple(op["key"])] = n
+                if op["op"] == "rename":
+                    cur.pop(tuple(op["src"]), None)
+                    written_at.pop(tuple(op["src"]), None)
+                seen.add(tuple(op["key"]))
+            continue
+        if op["op"] == "set" and "ekey" in op:
+            classes.append("entry-key:" + ("none" if op["ekey"] is None else "other"))
         k = tuple(op["key"])
         if op["op"] == "set" and k in seen:
             classes.append("overwrite")
@@ -831,7 +913,7 @@ _FORMS = st.sampled_from([
 ])
 _EXTRA = st.tuples(
     st.lists(st.tuples(st.sampled_from(["dup", "prefix", "del", "child", "root", "remote", "remote", "mutate",
-                                        "mutate"]),
+                                        "mutate", "alias", "rename", "ekey", "ekey"]),
                        st.integers(0, 7), st.integers(0, 9)), max_size=4),
     _FORMS,
     st.integers(0, 8),
@@ -905,10 +987,19 @@ def cases(draw):
             meta["remote"] = None if pos % 4 == 0 else REMOTES[pos % len(REMOTES)]
             if meta["remote"] == old_remote:
                 meta["remote"] = "backup" if old_remote != "backup" else "origin"
-            new = dict(prev, op="set", key=base["key"], meta=meta)
+            new = dict({k: v for k, v in prev.items() if not k.startswith("_")}, op="set", key=base["key"],
+                       meta=meta)
         elif kind == "mutate":
             field, value = MUTATIONS[pos % len(MUTATIONS)]
             new = {"op": "mutate", "key": base["key"], "field": field, "value": value}
+        elif kind in ("alias", "rename"):
+            # the entry object of base's key is stored under a second key / moved to another key as it is
+            target = other["key"] if pos % 3 == 0 else [*base["key"][:3], "moved"]
+            new = {"op": kind, "key": target, "src": base["key"]}
+        elif kind == "ekey":
+            # an entry whose own key attribute is None / another existing key / a key that is nowhere stored
+            own = [None, other["key"], ["ghost", "k"], [*base["key"][:2], "old"], other["key"]][pos % 5]
+            new = dict(other, key=base["key"], ekey=own)
         else:
             new = {"op": "del", "key": base["key"]}
         ops = ops[:] + [new]
@@ -946,7 +1037,7 @@ def cases(draw):
 
 
 def run(ctx):
-    ctx.run_given(cases(), run_case, ctx.n(quick=600, thorough=5000))
+    ctx.run_given(cases(), run_case, ctx.n(quick=500, thorough=5000))
 
 
 def replay(case, ctx):
